@@ -71,7 +71,7 @@ pub enum Unit {
 pub enum BOut {
     /// exactly this value (bit-exact floats, NaN == NaN)
     Val(RV),
-    /// an error (class Builtin: Type | Arity | Range | Arith)
+    /// an error (any variant a builtin may raise)
     Err,
     /// validity predicate with several correct outputs (min / max)
     OneOf(Vec<RV>),
